@@ -1097,6 +1097,10 @@ func (sc *serverConn) discardHeaders(fr *FrameHeader) error {
 		pb := b
 
 		b, err = sc.dec.nextField(hf, blockStart, fields, b)
+		if errors.Is(err, ErrNoField) {
+			return nil
+		}
+
 		if err != nil {
 			if errors.Is(err, ErrUnexpectedSize) && !fr.Flags().Has(FlagEndHeaders) &&
 				(sc.maxHeaderList <= 0 || len(pb) <= sc.maxHeaderList) {
@@ -1425,6 +1429,13 @@ func (sc *serverConn) handleHeaderFrame(strm *Stream, fr *FrameHeader) error {
 		pb := b
 
 		b, err = sc.dec.nextField(hf, blockStart, fieldsProcessed, b)
+		if errors.Is(err, ErrNoField) {
+			// the block ended in a table size update: hf holds no new field
+			err = nil
+
+			break
+		}
+
 		if err != nil {
 			// ErrUnexpectedSize means a header field spills past the bytes we
 			// currently have. That is only legal when more frames are coming:
